@@ -30,7 +30,10 @@ AllBases == BaseKinds \cup (DefNames \ NoWrap)
 (* Some case lines of the DeepNames families exceed the 8 KB up to which concurrent CSVWrite     *)
 (* calls are atomic: the pipeline runs "rest" (all bases, many workers, writes the lines below     *)
 (* LongLine only) and "deep" (those families, one worker, writes the long lines only).             *)
-Bases == IF Which = "deep" THEN AllBases \cap DeepNames ELSE AllBases
+(* (the families recursing through a named container carry values unfolded to depth 4: long lines too) *)
+(* (thorough tier: the families recursing through an unnamed container reach such lengths under two wrappers) *)
+LongNames == DeepNames \cup ContRecNames \cup (IF MutualFull THEN {"RSS", "RSlice", "RPSlice", "RMap", "RMapV"} ELSE {})
+Bases == IF Which = "deep" THEN AllBases \cap LongNames ELSE AllBases
 LongLine == 5000      \* characters of JSON; the written line (a quoted TLA+ string) is up to about 1.5 times as long
 BaseType(b) == IF b \in DefNames THEN Named(b) ELSE B(b)
 I8 == B("int8")
@@ -93,7 +96,7 @@ Twice(s) == {Struct(<<Fld("A", "a", s), Fld("B", "b", Ptr(s))>>), Struct(<<Fld("
 WrapSet0(s) == IF gbase \in DeepNames THEN (IF MutualFull THEN Full(s) ELSE Core(s))
               ELSE IF gbase \in LightNames /\ ~MutualFull /\ gbase \notin Deep THEN (IF gw = 0 THEN Mid(s) ELSE Core(s))
               ELSE IF gw = 0 \/ (gw = 1 /\ gbase \in Deep) THEN Full(s) ELSE Core(s)
-WrapSet(s) == (IF gopt \in {"throw", "custom"} THEN Twice(s) ELSE {}) \cup WrapSet0(s)
+WrapSet(s) == (IF gopt \in {"throw", "custom"} /\ gw = 0 THEN Twice(s) ELSE {}) \cup WrapSet0(s)
 MaxW == IF gbase \in DeepNames THEN 1 ELSE IF gbase \in Deep THEN W ELSE WS
 RepsOf == IF gbase \in RepNames /\ gw <= RepW THEN Reps ELSE 1
 
@@ -146,7 +149,7 @@ OptOK ==
    /\ (gopt = "custom" /\ gbase \in DeepNames) => MutualFull        \* (long case lines: thorough tier)
    /\ gopt \in {"throw", "custom"} =>
          /\ ReachNames(gty) # {}
-         /\ MutualFull \/ gw = 0 \/ (gw = 1 /\ gty \in Core(BaseType(gbase)) \cup Twice(BaseType(gbase)))
+         /\ (MutualFull /\ gw <= 2) \/ gw = 0 \/ (gw = 1 /\ gty \in Core(BaseType(gbase)) \cup Twice(BaseType(gbase)))
    /\ CASE Plain(gopt) \in {"default", "useall"} -> TRUE
         [] Plain(gopt) \in {"export", "useall_export"} -> AnonStructs(gty, TRUE) = 0
         [] Plain(gopt) = "exporttop" -> AnonStructs(gty, TRUE) = 0 /\ StripPtr(gty).k # "struct"
@@ -155,7 +158,7 @@ Emit == OptOK =>
           LET text == ToJson(IF ghist = "none" THEN [T |-> gty, opt |-> gopt, vals |-> GoVals(gty), reps |-> RepsOf]
                              ELSE [T |-> gty, opt |-> gopt, vals |-> GoVals(gty), reps |-> RepsOf,
                                    first |-> First, share |-> (ghist = "shared")]) IN
-          LET long == gbase \in DeepNames /\ Len(text) > LongLine IN
+          LET long == gbase \in LongNames /\ Len(text) > LongLine IN
           (Which = "all" \/ ((Which = "deep") = long)) => CSVWrite("%1$s", <<text>>, "cases.ndjson")
 
 EmitPoints == (gw = 0 /\ gbase = "bool" /\ gopt = "default" /\ ghist = "none") =>
